@@ -210,6 +210,45 @@ func gen(r *hx.Rand, n int) []string {
 			out = append(out, fmt.Sprintf("parse %s %d %s", ty, d, hx.Hex(genJunk(r))))
 		}
 	}
+	return append(out, floatSearch(r, 4*n)...)
+}
+
+// floatSearch looks for values on which As/CheckedAs to a float disagree with the correctly rounded nearest float (double
+// rounding in the conversion shows on about one short decimal in a few thousand): candidates are short decimals k*10^j in a
+// random configuration; the observation of each is computed right here and a candidate is emitted as an ordinary "chk" case
+// - judged by the driver like any other - exactly when its own observation is anomalous. On a correct tree nothing is emitted.
+func floatSearch(r *hx.Rand, n int) []string {
+	var out []string
+	for i := 0; i < n && len(out) < 12; i++ {
+		d := r.Range(1, 16)
+		ty := "f128"
+		if r.Chance(1, 4) {
+			ty = "f64"
+		}
+		nd := r.Range(1, 15) // 1 to 15 significant digits, every length equally likely
+		k := pow10[nd-1] + int64(r.U64()%uint64(9*pow10[nd-1]))
+		raw := new(big.Int).Mul(big.NewInt(k), big.NewInt(pow10[r.Intn(d+1)]))
+		if ty == "f64" && !raw.IsInt64() {
+			continue
+		}
+		if r.Chance(1, 5) {
+			raw.Neg(raw)
+		}
+		c := fmt.Sprintf("chk %s %d %s", ty, d, raw.String())
+		fields := map[string]string{}
+		for _, kv := range strings.Fields(run(c)) {
+			if a, b, ok := strings.Cut(kv, "="); ok {
+				fields[a] = b
+			}
+		}
+		t64, b64, _ := strings.Cut(fields["near64"], ":")
+		t32, b32, _ := strings.Cut(fields["near32"], ":")
+		st := fields["S"]
+		if fields["as64"] != b64 || (fields["chk64"] != "ERR") != (t64 == st) || (fields["chk64"] != "ERR" && fields["chk64"] != b64) ||
+			(fields["chk32"] != "ERR") != (t32 == st) || (fields["chk32"] != "ERR" && fields["chk32"] != b32) {
+			out = append(out, c)
+		}
+	}
 	return out
 }
 
